@@ -24,6 +24,7 @@ import random
 import re
 import time
 import tempfile
+import zlib
 from dataclasses import dataclass, field
 from pathlib import Path
 from typing import Any, Callable, Dict, List, Optional, Sequence, Tuple, Union
@@ -154,6 +155,7 @@ class IOHarness(Harness):
         n_in = len(inp)
         r = _run_once_bits(self, pv, inp)
         r['poked'] = pv
+        self.last_run = r
         r['consumed'] = n_in - r['input_left']
         r['buffers'] = {lab: self.read_buf(lab) for lab in c.buffers}
         r['eof'] = r['result'] is not None and r['result'][0] == 'eof'
@@ -220,7 +222,7 @@ def _jsonable(vals: Vals) -> Dict[str, Any]:
 
 def check_io_contract(rep: Report, c: IOContract, seed: int, shard: int = 0) -> Tuple[int, int]:
     """returns (executions, distinct operand tuples)"""
-    rng = random.Random(hash((c.name, c.call, seed)) & 0xFFFFFFFF)
+    rng = random.Random(zlib.crc32(f'{c.name}|{c.call}|{seed}'.encode()))  # not hash(): str hashes differ per process
     evals = 0
     distinct = set()
     for w in c.widths:
@@ -239,14 +241,15 @@ def check_io_contract(rep: Report, c: IOContract, seed: int, shard: int = 0) -> 
                 distinct.add((w, repr(sorted(_jsonable(vals).items()))))
                 why = judge(h, c, vals, r)
                 if why:
-                    rep.violation(Violation(f'bounded:{c.name}.contract', f'{c.call} (w={w}) on {_jsonable(vals)}: {why}   [doc: {c.doc}]', dict(call=c.call, w=w, operands=_jsonable(vals), source=h.source, executions_before=evals - 1), True, key=f'{c.name}:{why.split(" ")[0]}'))
+                    rep.violation(Violation(f'bounded:{c.name}.contract', f'{c.call} (w={w}) on {_jsonable(vals)}: {why}   [doc: {c.doc}]', dict(call=c.call, w=w, operands=_jsonable(vals), source=h.source, executions_before=evals - 1), True, key=f'{c.call}:{why.split(" ")[0]}'))
                     return evals, len(distinct)
     return evals, len(distinct)
 
 
 def judge(h: IOHarness, c: IOContract, vals: Vals, r: Dict[str, Any]) -> Optional[str]:
     want_eof = bool(c.eof and c.eof(vals))
-    wo = to_bits(c.output(vals)) if c.output else []
+    wo = c.output(vals) if c.output else b''
+    wo = None if wo is None else to_bits(wo)  # None: not stated as one byte string (a post_hook judges r['out'])
     if want_eof:
         if not r['eof']:
             return f'eof: the input ends inside the numeral/line, documented outcome is the end-of-input halt; got {r["result"]} exit={r["exit"]} after {r["ops"]} ops, {r["input_left"]} input bits left'
@@ -267,7 +270,7 @@ def judge(h: IOHarness, c: IOContract, vals: Vals, r: Dict[str, Any]) -> Optiona
     want_exit = c.exit_(vals) if c.exit_ is not None else None
     if r['exit'] != want_exit:
         return f'exit taken: {r["exit"]}, documented: {want_exit}'
-    if r['out'] != wo:
+    if wo is not None and r['out'] != wo:
         return f'output {show_bits(r["out"])}, documented: {show_bits(wo)}'
     if c.input_ is not None:
         k = c.consumed(vals) if c.consumed else None
@@ -325,6 +328,7 @@ def run_io_contracts(rep: Report, contracts: List[IOContract], seed: int, prop: 
         results = list(pool.imap_unordered(_one, range(len(_JOBS)), chunksize=1))
     results.sort()
     per: Dict[str, List[int]] = {}
+    seen: set = set()
     for idx, ev, di, viols in results:
         c = _JOBS[idx][0]
         g = per.setdefault(c.group, [0, 0, 0])
@@ -332,8 +336,82 @@ def run_io_contracts(rep: Report, contracts: List[IOContract], seed: int, prop: 
         g[1] += di
         g[2] += 1 if _JOBS[idx][2] == 0 else 0
         for v in viols:
-            rep.violation(v)
+            if (v.obligation, v.key) not in seen:  # shards of one contract report the same defect once
+                seen.add((v.obligation, v.key))
+                rep.violation(v)
     for gname, (ev, di, k) in per.items():
         ws = sorted({w for c in contracts if c.group == gname for w in c.widths})
         rep.add_bounded(f'{prop}/{gname}: macro contracts executed on the real assembled library (machine definition as the engine)', f'{k} macro applications, widths {ws}; {descr.get(gname, "")}', ev, di)
     rep.extra['macros_under_contract'] = sorted({c.name for c in contracts})
+
+
+# ------------------------------------------------------------------------------------------------ stale contracts
+
+
+def doc_index(stl_dir: Path, only: Optional[Sequence[str]] = None) -> Dict[str, List[str]]:
+    """full macro name ('hex.print_uint.print_digit', 'stl.output', 'bit._.print_str_one_char') -> the comment block
+    above each of its `def`s in the library source (all arities), whitespace-normalised, `//` removed"""
+    out: Dict[str, List[str]] = {}
+    for f in sorted(stl_dir.rglob('*.fj')):
+        if only is not None and str(f.relative_to(stl_dir)) not in only:
+            continue
+        stack: List[Optional[str]] = []  # namespace name, or None for a def / other block
+        block: List[str] = []
+        for raw in f.read_text().splitlines():
+            line = raw.strip()
+            if line.startswith('//'):
+                block.append(line[2:].strip())
+                continue
+            code = line.split('//')[0]
+            m_ns = re.match(r'ns\s+([A-Za-z_]\w*)\s*\{', code)
+            m_def = re.match(r'def\s+([A-Za-z_]\w*)', code)
+            if m_def:
+                name = '.'.join([s for s in stack if s] + [m_def.group(1)])
+                out.setdefault(name, []).append(' '.join(' '.join(block).split()))
+            if m_ns:
+                stack.append(m_ns.group(1))
+            else:
+                stack.extend([None] * code.count('{'))
+            for _ in range(code.count('}')):
+                if stack:
+                    stack.pop()
+            if code or not line:
+                block = []
+    return out
+
+
+def stl_dir() -> Path:
+    import importlib
+
+    return Path(importlib.import_module('flipjump').__file__).parent / 'stl'
+
+
+def uncovered_macros(contracts: Sequence[IOContract], files: Sequence[str], excused: Dict[str, str]) -> List[str]:
+    """every `def` of the given library files that has neither a contract nor a stated reason"""
+    have = {n.strip() for c in contracts for n in c.name.split(';')}
+    return sorted(n for n in doc_index(stl_dir(), files) if n not in have and n not in excused)
+
+
+def stale_contracts(contracts: Sequence[IOContract]) -> List[str]:
+    """contracts whose `doc` text is no longer found above the macro's def in the library that is being executed:
+    the documentation changed after the contract was written - to be re-read, not to be reported as a violation"""
+    idx = doc_index(stl_dir())
+    stale: List[str] = []
+    done: set = set()
+    for c in contracts:
+        if (c.name, c.doc) in done:
+            continue
+        done.add((c.name, c.doc))
+        names = [n.strip() for n in c.name.split(';')]
+        blocks = [b for n in names for b in idx.get(n, [])]
+        if not blocks:
+            stale.append(f'{c.name}: no documented def of this name in {stl_dir()}')
+            continue
+        for frag in re.split(r'\s{2,}|\s;\s', c.doc):
+            frag = ' '.join(frag.split())
+            if not frag or (frag.startswith('[') and frag.endswith(']')):
+                continue
+            if not any(frag in b for b in blocks):
+                stale.append(f'{c.name}: documentation text not found any more: {frag!r}')
+                break
+    return stale
